@@ -490,7 +490,9 @@ func runMeta(pd *PropDef, tier string, seed int64, workers int, work string, onl
 			rep.incon = append(rep.incon, "unknown source property "+src.ID)
 			continue
 		}
-		all := sp.Jobs(tier)
+		// thorough: every job of the source property's quick list (stride 1); the thorough lists of
+		// C13/C15/C16 alone would be several hundred thousand jobs that add no new code paths
+		all := sp.Jobs("quick")
 		var jobs []sym.Job
 		for i, j := range all {
 			if only != "" && !strings.Contains(j.ID, only) {
